@@ -542,6 +542,8 @@ def merged_leading(interp, v):
 
 
 def reshape_to(interp, x, dims_v, st, node):
+    if len(dims_v) == 1 and dims_v[0].kind == "none":
+        return x  # ndarray.reshape(None) leaves the shape as it is
     sh = shape(x)
     dims = []
     minus = None
